@@ -5,6 +5,10 @@ Ties and oracle:
       calc_reshape_args on the finite domain of the property (exhaustive in the
       thorough tier, random subset in quick) + a stream of malformed inputs
       (exceptions mapped to the model's error enum);
+  T   the function GENERATED from the current source of calc_reshape_args
+      (tr/gen_reshape.py -> coq/Gen/ReshapeGen.v; Props/C07e.v proves it equal
+      to the hand model, unbounded) == the real calc_reshape_args on the same
+      inputs as X1;
   X2  the model's plan executor on index trees == the nesting / sizes the real
       AbelianArray.reshape produces (real plan, real arrays, sparse included);
   oracle (implementation only): rank, no axis larger than requested, norm^2,
@@ -21,6 +25,24 @@ import common
 from common import gz, gnat, glist, gopt
 
 IMPORTS = 'From SV Require Import Model.ReshapeArgs.\n'
+# the translated routine (names are prefixed g / gen_, no clash with the hand model)
+IMPORTS_GEN = 'From SV Require Import Base.Prelude Base.PyList Gen.ReshapeGen.\n'
+PREAMBLE_GEN = '''
+Definition zl_eqb := list_eqb Z.eqb.
+Definition gplan_eqb (p q : list Z * list (list (list Z)) * list Z) : bool :=
+  let '(u, f, e) := p in let '(u', f', e') := q in
+  zl_eqb u u' && list_eqb (list_eqb zl_eqb) f f' && zl_eqb e e'.
+Definition gres_plan_eqb (r s : gres (list Z * list (list (list Z)) * list Z)) : bool :=
+  match r, s with
+  | GOk p, GOk q => gplan_eqb p q
+  | GErrValue, GErrValue => true
+  | GErrIndex, GErrIndex => true
+  | GErrUnbound, GErrUnbound => true
+  | GErrKey, GErrKey => true
+  | GErrType, GErrType => true
+  | _, _ => false
+  end.
+'''
 SIZES = (1, 2, 3, 4, 6)
 
 
@@ -155,6 +177,24 @@ def g_res(r):
     if r[0] == 'ok':
         return '(Ok %s)' % g_plan(r[1])
     return ERR.get(r[1], 'OutOfFuel')    # an unmapped exception class can never agree with the model
+
+
+GERR = {'ValueError': 'GErrValue', 'IndexError': 'GErrIndex', 'UnboundLocalError': 'GErrUnbound', 'KeyError': 'GErrKey',
+        'TypeError': 'GErrType'}
+
+
+def g_zplan(p):
+    u, f, e = p
+    return '(%s, %s, %s)' % (g_zlist(u), glist([glist([g_zlist(g) for g in grp]) for grp in f]), g_zlist(e))
+
+
+def gen_args_expr(triple, r):
+    """the GENERATED routine on the same input, with the fuel gen_fuel = 2 * (len shape + len newshape) + 3 that
+    Props/C07e.v (C07_gen_reshape_args_never_out_of_fuel) proves sufficient for every input"""
+    sh, nw, subs = triple
+    fuel = 2 * (len(sh) + len(nw)) + 3
+    want = '(GOk %s)' % g_zplan(r[1]) if r[0] == 'ok' else GERR.get(r[1], 'GOutOfFuel')
+    return 'gres_plan_eqb (gen_calc_reshape_args %d%%nat %s %s %s) %s' % (fuel, g_zlist(sh), g_zlist(nw), g_subs(subs), want)
 
 
 def args_expr(triple, r):
@@ -605,10 +645,11 @@ def run(ctx):
                         extra[t] = 1
         chosen += list(extra)
     mal = malformed_stream(rng, 3000 if ctx.thorough else 600)
-    exprs, meta = [], []
+    exprs, meta, gexprs = [], [], []
     for t in chosen + mal:
         r = real_args(fn, t)
         exprs.append(args_expr(t, r))
+        gexprs.append(gen_args_expr(t, r))
         meta.append((t, r))
         ctx.count()
         if r[0] == 'ok':
@@ -636,6 +677,19 @@ def run(ctx):
         args_disagree = [meta[i] for i in bad]
         tie_broken += ['Model.calc_reshape_args disagrees with the implementation on %r (implementation: %r)' % (m[0], m[1])
                        for m in args_disagree[:10]]
+
+    # ---- T: the routine generated from the current source vs the implementation, same inputs
+    ctx.count(len(gexprs))
+    gbad = common.run_cases(ctx, 'gen', IMPORTS_GEN, PREAMBLE_GEN, gexprs, shard=2000 if ctx.thorough else 300)
+    gen_disagree = []
+    if gbad is None:
+        tie_broken.append('cases.v (generated calc_reshape_args, Gen/ReshapeGen.v, vs implementation) did not evaluate')
+    elif gbad:
+        gen_disagree = [meta[i] for i in gbad]
+        tie_broken += ['Gen.ReshapeGen.gen_calc_reshape_args disagrees with the implementation on %r (implementation: %r)' % (m[0], m[1])
+                       for m in gen_disagree[:10]]
+        seen = {m[0] for m in args_disagree}
+        args_disagree += [m for m in gen_disagree if m[0] not in seen]     # searched below like the X1 disagreements
 
     # ---- arrays: X2 (plan executor vs real reshape) and the oracle
     fnd = Findings(ctx)
@@ -812,7 +866,8 @@ def run(ctx):
         'pre-fused axes, every (quick: up to 8) reachable target; non-trivial = a routine input whose plan is non-empty or raises, or an '
         'array of rank >=2 reshaped to a different shape; distinct by full input')
     ctx.extra['tie'] = {'routine_cases': len(exprs), 'routine_domain_inputs': len(chosen), 'malformed_inputs': len(mal),
-                        'executor_cases': len(exprs2), 'routine_disagreements': len(args_disagree)}
+                        'executor_cases': len(exprs2), 'routine_disagreements': len(args_disagree),
+                        'generated_routine_cases': len(gexprs), 'generated_routine_disagreements': len(gen_disagree)}
     ctx.extra['branches_reached'] = branch
     ctx.extra['array_distribution'] = dist
     ctx.extra['known_findings_observed'] = fnd.seen
